@@ -23,6 +23,14 @@ def gen_ops(rng, version):
     names = [n for _, n in GL.names_in([o[1] for o in ops if o[0] == 'add'])]
     segs = [n for k, n in GL.names_in([o[1] for o in ops if o[0] == 'add']) if k == 'S']
     pool = names + ['7', '12', 'zz']
+    if rng.random() < 0.5:
+        # identifiers that look like integers and are mentioned before they are defined: the placeholders carrying them
+        # are in use as far as unused_name() is concerned
+        a0 = rng.choice(segs) if segs else 'A'
+        for k in rng.sample(['1', '2', '3', '4', '5', '6'], 3):
+            fwd = ('L\t%s\t+\t%s\t+\t*' % (a0, k)) if version == 'gfa1' else rng.choice(
+                ['E\t*\t%s+\t%s+\t0\t1\t0\t1\t*' % (a0, k), 'U\t*\t%s %s' % (a0, k), 'O\t*\t%s+' % k])
+            ops.insert(rng.randint(0, min(3, len(ops))), ('add', fwd))
     for _ in range(rng.randint(2, 8)):
         n = rng.choice(pool)
         a = rng.choice(segs) if segs else 'A'
@@ -48,6 +56,11 @@ def step_oracle(G, op, r, ob, oa, removed):
     names = G.names
     if len(names) != len(set(names)):
         out.append(('identifiers are not pairwise distinct', None, sorted(n for n in set(names) if names.count(n) > 1)))
+    # unused_name() must hand out an identifier that nothing carries, placeholders included
+    u = impl.outcome(lambda: G.unused_name())
+    if u[0] == 'ok':
+        if u[1] in names or G.line(u[1]) is not None:
+            out.append(('unused_name() returned an identifier that is in use', None, u[1]))
     scan = {}
     for ln in G.lines:
         n = getattr(ln, 'name', None)
